@@ -440,9 +440,10 @@ class DeserializationMethodVisitor(
             additional_field = None
             for field, field_factory in zip(fields, field_factories):
                 field_method: DeserializationMethod = field_factory.method
+                # a required field has no default to fall back on
                 fall_back_on_default = (
                     field.fall_back_on_default or self.fall_back_on_default
-                )
+                ) and not field.required
                 if field.flattened:
                     flattened_aliases = get_deserialization_flattened_aliases(
                         cls, field, self.default_conversion
